@@ -218,6 +218,25 @@ class KwargsLearner:
         self.t += 1
 
 
+class NoCopyLearner:
+    """stateful learner that keeps its schedule as a generator: it can be used, but neither deep-copied nor pickled"""
+
+    def __init__(self, tag):
+        self.tag, self.t = tag, 0
+        self._schedule = (k % 3 for k in iter(int, 1))
+
+    @property
+    def params(self):
+        return {"family": "NoCopyLearner", "tag": self.tag}
+
+    def predict(self, context, actions):
+        _rows_only(context, actions)
+        return actions[(next(self._schedule) + self.t) % len(actions)], 1.0
+
+    def learn(self, context, action, reward, probability):
+        self.t += 1
+
+
 def fn_evaluator(environment, learner):
     """a custom evaluator given as a plain function"""
     from coba.safety import SafeLearner
